@@ -3,6 +3,7 @@ import MesaModel.Gen.DevsTables
 import MesaModel.Proofs.DevsHeap
 import MesaModel.Proofs.DevsLive
 import MesaModel.Proofs.DevsOrder
+import MesaModel.Proofs.DevsDoomed
 /-!
 # C14 — the simulators run each live event once, in (time, priority, FIFO) order
 
@@ -67,6 +68,12 @@ theorem C14_only_cancelled_or_dead_discarded {s : Sim} {e : Ev} {rest : List Ev}
 theorem C14_cancelled_never_executes {s s' : Sim} (h : Reachable s) {e : Ev} (he : e ∈ s.pending)
     (hc : e.cancelled = true) (hr : ReachableFrom s s') : e.id ∉ logIds s'.log :=
   dead_not_logged (reachable_inv (reachableFrom_reachable h hr)).2.1 (dead_stays (Or.inl ⟨e, he, rfl, hc⟩) hr)
+
+/-- Once its callable has been garbage-collected, never executed: an event whose callable died while it was pending is not
+    in the execution log of any state reachable afterwards (it is popped and silently discarded). -/
+theorem C14_collected_never_executes {s s' : Sim} (h : Reachable s) {e : Ev} (he : e ∈ s.pending)
+    (hd : e.dead = true) (hr : ReachableFrom s s') : e.id ∉ logIds s'.log :=
+  doomed_not_logged (reachable_inv (reachableFrom_reachable h hr)).2.1 (doomed_stays (Or.inl ⟨e, he, rfl, hd⟩) hr)
 
 /-- `cancel_event` marks every pending event carrying that handle. -/
 theorem C14_cancel_marks (s : Sim) (k : Nat) {e : Ev} (he : e ∈ s.pending) (hu : e.isStep = false) (ht : e.tag = k) :
